@@ -55,6 +55,8 @@ RRequest(p) ==
   \/ (GetLookup(p) /\ Log(p, "GetLookup")) \/ (GetOpen(p) /\ Log(p, "GetOpen"))
   \/ (GetSlow(p) /\ Log(p, "GetSlow")) \/ (GetHeader(p) /\ Log(p, "GetHeader"))
   \/ (GetDrop(p) /\ Log(p, "GetDrop")) \/ (ContainsLookup(p) /\ Log(p, "ContainsLookup"))
+  \/ (GetPrereserve(p) /\ Log(p, "GetPrereserve")) \/ (GetProxy(p) /\ Log(p, "GetProxy"))
+  \/ (GetFetch(p) /\ Log(p, "GetFetch")) \/ (GetCommit(p) /\ Log(p, "GetCommit"))
 
 REvictor == \/ (EvictTake /\ LogR("EvictTake"))
             \/ (EvictUnlink /\ LogR("EvictUnlink"))
@@ -66,7 +68,7 @@ RSpec == RInit /\ [][RNext]_<<vars, hist>>
 Done == (\A p \in Procs : pc[p] = "idle" /\ ops[p] = 0) /\ lru.evq = <<>> /\ evstage = "idle"
 
 \* the initial state, for the harness to set up
-InitObs == [corrupt |-> CorruptInit, max |-> MaxSize, block |-> Block]
+InitObs == [corrupt |-> CorruptInit, max |-> MaxSize, block |-> Block, backend |-> WithBackend]
 
 PrintDone == Done => PrintT(<<"CASE", ToJson([init |-> InitObs, steps |-> hist])>>)
 
